@@ -819,6 +819,18 @@ def check(ctx):
     _check_c02(ctx)
     import core
     core.script_route(ctx)
+    # the keyword `in` directly against a number literal, a closing bracket or a postfix `!` (no letter follows it): the same
+    # program as with blanks around it — whitespace between two tokens never changes the meaning
+    R = ctx.real
+    for packed, spaced in [("3in{1,2,3}", "3 in {1,2,3}"), ("s={1,2,3}; 2in s", "s={1,2,3}; 2 in s"), ("(3)in{1,2,3}", "(3) in {1,2,3}"), ("5in 1..9", "5 in 1..9"),
+                           ("{x:x in 1..3,2in{x,2}}", "{x : x in 1..3, 2 in {x, 2}}"), ("1e3in{1000}", "1e3 in {1000}"), ("4.5in{4.5}", "4.5 in {4.5}"), ("12in{12}", "12 in {12}"),
+                           ("3!in{6}", "3! in {6}"), ("m={3}; 3in m", "m={3}; 3 in m"), ("2in[1,3]", "2 in [1,3]"), ("7in{1,2}", "7 in {1,2}"), ("h=1..3; 2in h", "h=1..3; 2 in h"),
+                           ("(2 m)to cm", "(2 m) to cm"), ("{1,2}in{{1,2}}", "{1,2} in {{1,2}}")]:
+        rp, rs = R.execute(packed), R.execute(spaced)
+        ctx.count("packed-keyword:" + packed, bucket="keyword against a literal")
+        if (rp["status"], rp["out"], rp["escaped"]) != (rs["status"], rs["out"], rs["escaped"]):
+            ctx.violation("ws-between-tokens:" + packed, packed, "as %r: %s" % (spaced, rs["out"].strip() or "status %s" % rs["status"]),
+                          rp["out"].strip() or "status %s %s %s" % (rp["status"], rp["escaped"] or "", rp["err"].strip()[:80]), "execute(%r)" % packed)
 
 
 # ---- refinement lemmas of the unified pipeline model for this property (Props/Pipeline2.lean): the fragment this check's
